@@ -43,6 +43,8 @@ type c13Case struct {
 	DeadMS  int    `json:"dead_ms"` // context deadline (virtual or real); per-attempt timeout is 1000 ms virtual / 100 ms real
 	Expired bool   `json:"expired"` // context already expired at entry
 	Real    bool   `json:"real"`
+	// TimeoutMS: real mode per-attempt timeout (0 = 100 ms)
+	TimeoutMS int `json:"timeout_ms,omitempty"`
 }
 
 var c13Calls = []string{"sessionless-command", "new-session", "new-session-discovery", "session-command", "session-close", "retrieve-sdrs", "retrieve-cipher-suites", "dcmi-sensor-info"}
@@ -162,22 +164,35 @@ func c13Virtual(c c13Case) (key, msg, outcome string) {
 	}
 	var err error
 	var valid bool
-	p := guard(func() {
-		err, valid = c13Run(c.Call, w.Conn, cfg.Password, func() context.Context {
-			return w.Ctx
-		}, func() {
+	var p string
+	finished := make(chan struct{})
+	go func() {
+		defer close(finished)
+		p = guard(func() {
+			err, valid = c13Run(c.Call, w.Conn, cfg.Password, func() context.Context {
+				return w.Ctx
+			}, func() {
 			// the fault window and the clock start with the call under test
 			started = true
 			w.T.Clock = clock
 			w.Ctx, w.Cancel = newCtx()
 			clock.Cancel = w.Cancel
 			backoff.VerifSleep = w.T.Sleep
-			if c.Expired {
-				clock.Expire()
-			}
+				if c.Expired {
+					clock.Expire()
+				}
+			})
 		})
-	})
+	}()
 	what := fmt.Sprintf("%s, %s from send %d (once=%v), deadline %d ms, expired-at-entry=%v", c.Call, c.Pattern, c.Step, c.Once, c.DeadMS, c.Expired)
+	select {
+	case <-finished:
+	case <-time.After(8 * time.Second):
+		// every wait the library may make goes through an owned seam and costs no
+		// real time; still being blocked means it waits on something the
+		// context cannot interrupt (the goroutine is abandoned)
+		return "C13/blocks-outside-context-control/" + c.Call + "/" + c.Pattern, what + ": the call is blocked in real time (8 s) although all transport and back-off waits are virtual: it waits on something its context does not bound", ""
+	}
 	if strings.HasPrefix(p, "RUNAWAY") {
 		return "C13/keeps-going-after-expiry/" + c.Call, what + ": " + p, ""
 	}
@@ -194,6 +209,9 @@ func c13Virtual(c c13Case) (key, msg, outcome string) {
 		if ex.Err == env.ErrNotDescendant {
 			return "C13/attempt-context-not-derived-from-callers/" + c.Call, fmt.Sprintf("%s: transmission %d was made with a context that is not bound to the caller's context", what, i), ""
 		}
+	}
+	if w.T.DeadCtxSends > 0 {
+		return "C13/retry-on-used-up-attempt-context/" + c.Call, fmt.Sprintf("%s: %d transmissions attempted with a per-attempt context whose deadline had already passed", what, w.T.DeadCtxSends), ""
 	}
 	if clock.SleepsAfterExpiry > 0 {
 		return "C13/backoff-sleep-after-expiry/" + c.Call, fmt.Sprintf("%s: %d back-off sleeps were started after the context had expired", what, clock.SleepsAfterExpiry), ""
@@ -276,6 +294,14 @@ func newUDPBMC(cfg ref.Config) (*udpBMC, error) {
 	return u, nil
 }
 
+// lateDelay is how long a "late" reply is held: past the per-attempt timeout.
+func (u *udpBMC) lateDelay() time.Duration {
+	if u.c.TimeoutMS > 0 {
+		return time.Duration(u.c.TimeoutMS)*time.Millisecond + 60*time.Millisecond
+	}
+	return 160 * time.Millisecond
+}
+
 func (u *udpBMC) addr() string { return u.conn.LocalAddr().String() }
 
 func (u *udpBMC) close() { u.conn.Close(); u.wg.Wait() }
@@ -305,7 +331,7 @@ func (u *udpBMC) serve() {
 			switch u.c.Pattern {
 			case "black-hole":
 			case "late-reply":
-				reply, delay = u.bmc.Honest(rx), 160*time.Millisecond
+				reply, delay = u.bmc.Honest(rx), u.lateDelay()
 			case "garbage":
 				reply = []byte{0x06, 0x00, 0xFF, 0x07, 0x06, 0x00, 0x01}
 			case "temporary-code":
@@ -357,7 +383,11 @@ func c13Real(c c13Case) (key, msg, outcome string) {
 		if err != nil {
 			return "C13/harness", err.Error(), ""
 		}
-		conn, err := bmc.DialV2(u.addr(), bmc.WithTimeout(100*time.Millisecond))
+		pat := 100 * time.Millisecond
+		if c.TimeoutMS > 0 {
+			pat = time.Duration(c.TimeoutMS) * time.Millisecond
+		}
+		conn, err := bmc.DialV2(u.addr(), bmc.WithTimeout(pat))
 		if err != nil {
 			u.close()
 			return "C13/harness", err.Error(), ""
@@ -416,10 +446,14 @@ func c13Real(c c13Case) (key, msg, outcome string) {
 func runC13(r *rep.R) {
 	r.SetRule("a case is (blocking call, fault pattern, the send of the call from which the pattern applies - sticky or once -, deadline/timeout ratio, expired-at-entry). Virtual time: lost replies charge the per-attempt timeout (1 s) and back-off sleeps a 250 ms quantum to a virtual clock that expires the caller's context at the deadline (0.5 s, 1 s, 3.5 s: ratio <1, =1, >1), so every point at which the deadline can fall is enumerated; oracle: no back-off sleep and at most a bounded number of (immediately failing) transmissions after expiry, per-attempt contexts derived from the caller's, error unless valid responses were delivered, the call returns. Real sockets: the same cases replayed hook-free over UDP loopback with real timers; oracle: return <= deadline + 250 ms, confirmed on 5 runs before reporting.")
 	var idx int64
+	blocked := map[string]bool{}
 	do := func(c c13Case) {
 		idx++
 		if !r.Mine(idx) {
 			return
+		}
+		if blocked[c.Call+"/"+c.Pattern] && !c.Real {
+			return // already reported as blocking; each further case would cost 8 s
 		}
 		var k, msg, out string
 		if c.Real {
@@ -431,6 +465,9 @@ func runC13(r *rep.R) {
 		r.Trace()
 		if k != "" {
 			r.Outcome("violation")
+			if strings.HasPrefix(k, "C13/blocks-outside-context-control") {
+				blocked[c.Call+"/"+c.Pattern] = true
+			}
 			r.Violate(k, msg, "c13", c, nil)
 			return
 		}
@@ -479,6 +516,14 @@ func runC13(r *rep.R) {
 			}
 		}
 		do(c13Case{Call: call, Pattern: "black-hole", Step: 1 << 20, DeadMS: 300, Expired: true, Real: true})
+		// deadline much shorter than the per-attempt timeout: any wait sized by
+		// the per-attempt timeout rather than by the context overruns visibly
+		for _, p := range c13Patterns {
+			do(c13Case{Call: call, Pattern: p, Step: 0, DeadMS: 120, TimeoutMS: 900, Real: true})
+			if n > 1 {
+				do(c13Case{Call: call, Pattern: p, Step: n - 1, DeadMS: 120, TimeoutMS: 900, Real: true})
+			}
+		}
 	}
 	r.Assume("virtual time: a lost reply costs exactly the per-attempt timeout and a back-off sleep a fixed 250 ms quantum (the real jitter is nondeterministic); expiry is modelled as a deadline, not a cancellation")
 	r.Assume("real sockets: 250 ms scheduling allowance, an overrun is only reported if it repeats on 5 consecutive runs")
